@@ -14,10 +14,11 @@ Local Open Scope Z_scope.
 (** Guarded statement.  For EVERY tick codec (get_ticks, time_from_ticks: any functions), EVERY initial
     store shared by master and replica and EVERY history of transaction groups whose write sets are well
     formed ([run_okb]: FIXED and VARIABLE sets in any mixture, timeframe of whole seconds tiling the day,
-    (year, index) naming a slot, payloads of the bucket's record length, the decoded nanoseconds inside
-    the interval): the replica replays the whole history without error, and its store is EXACTLY the
-    store of a master that received the same history with every VARIABLE record re-ticked from
-    (interval start + nanosecond part) -- [retick]. *)
+    (year, index) naming a slot, payloads of the bucket's record length, every record's DECODED time inside
+    the record's interval): the replica replays the whole history without error, and its store is EXACTLY
+    the store of a master that received the same history with every VARIABLE record's ticks re-encoded from
+    the time they decode to ([retick]: ticks' = GetIntervalTicks32Bit (GetTimeFromTicks ticks)).  No seconds
+    are lost any more, whatever the timeframe. *)
 Theorem C25_guarded : forall gt tft tgs st,
   run_okb gt tft st tgs = true ->
   replica_run gt tft st tgs = ROk (master_run st (map (map (retick gt tft)) tgs)).
@@ -32,15 +33,12 @@ Theorem C25_fixed_converges : forall gt tft tgs st,
 Proof. exact replica_fixed_guarded. Qed.
 Print Assumptions C25_fixed_converges.
 
-(** what re-ticking loses, for every codec: the replica's ticks depend on the master's only through the
-    nanosecond part of the decoded time; two records that differ in whole seconds inside the interval
-    become indistinguishable *)
-Theorem C25_retick_forgets_seconds : forall gt tft epoch ipd idx ipd_b r1 r2,
-  firstn (List.length r1 - 4) r1 = firstn (List.length r2 - 4) r2 ->
-  snd (tft epoch ipd (rec_ticks r1)) = snd (tft epoch ipd (rec_ticks r2)) ->
-  retick_rec gt tft epoch ipd idx ipd_b r1 = retick_rec gt tft epoch ipd idx ipd_b r2.
-Proof. exact retick_forgets_seconds. Qed.
-Print Assumptions C25_retick_forgets_seconds.
+(** re-ticking is re-encoding of the decoded time, by definition, for every codec *)
+Theorem C25_retick_reencodes : forall gt tft epoch ipd idx ipd_b rec,
+  retick_rec gt tft epoch ipd idx ipd_b rec
+  = firstn (List.length rec - 4) rec ++ le_bytes 4 (gt (rec_time tft epoch ipd rec) idx ipd_b).
+Proof. reflexivity. Qed.
+Print Assumptions C25_retick_reencodes.
 
 (** * The concrete codec (C10's model, Flocq binary64) *)
 Definition gt (t idx ipd : Z) : Z :=
@@ -51,7 +49,7 @@ Definition tft : Z -> Z -> Z -> Z * Z := dec.
 (** Full statement (the property as given: ALL histories over fixed and variable buckets of all
     timeframes, any grouping into transactions, including mixed ones).  A history is admitted when every
     write set is individually well formed against the master's evolving store. *)
-Definition ws_wfb (st : store) (w : ws) : bool := fixed_okb st w || var_okb tft st w.
+Definition ws_wfb (st : store) (w : ws) : bool := fixed_okb st w || var_wfb st w.
 Fixpoint tg_wfb (st : store) (tg : list ws) : bool :=
   match tg with [] => true | w :: r => ws_wfb st w && tg_wfb (master_ws st w) r end.
 Fixpoint hist_wfb (st : store) (tgs : list (list ws)) : bool :=
@@ -61,15 +59,13 @@ Definition C25_full : Prop := forall tgs,
   hist_wfb [] tgs = true ->
   exists sr, replica_run gt tft [] tgs = ROk sr /\ convergedb tft (master_run [] tgs) sr = true.
 
-(** Not proved (stated, see notes/C25.md): for VARIABLE buckets the guarded theorem gives the replica's
-    store exactly (re-ticked records); that the re-ticked timestamps stay within the bucket's resolution of
-    the master's when no whole second lies inside the interval is a statement about the float codec
-    (enc after dec), C10's open bound [C10_bound_guarded]. *)
+(** Not proved (stated, see notes/C25.md): when no tick is exposed to the decoder's second rounding (C10's F1, on
+    the master's ticks or on the re-encoded ones) the re-encoded timestamps stay within the bucket's resolution of
+    the master's.  This is a statement about the float codec (decode after encode after decode), C10's open bound
+    [C10_bound_guarded]. *)
 Definition C25_variable_close : Prop := forall tgs,
   run_okb gt tft [] tgs = true ->
-  forallb (forallb (fun w => negb (ws_rt w =? RT_VARIABLE) ||
-     forallb (fun rec => fst (tft 0 (ipd_of (ws_tf w)) (rec_ticks rec)) =? 0)
-             (chunks (List.length (ws_payload w)) (Z.to_nat (ws_vrl w)) (ws_payload w)))) tgs = true ->
+  existsb (existsb (f1_exposed gt tft)) tgs = false ->
   exists sr, replica_run gt tft [] tgs = ROk sr /\ convergedb tft (master_run [] tgs) sr = true.
 
 Definition b (s : string) : list byte := bytes_of_string s.
@@ -78,19 +74,27 @@ Definition sh_A : list shape := [(b "Epoch", ET_INT64); (b "A", ET_INT32)].
 Definition minute : Z := 60000000000.
 Definition second : Z := 1000000000.
 
-(** [Finding variable-seconds-within-interval, F21a]  One tick written to a 1Min variable bucket at
-    2020-03-04 12:00:37.5 (index 91441, offset 37.5 s): serializeVariableRecords stamps the row with the
-    interval start and keeps only the nanoseconds, the replica stores 12:00:00.5. *)
+(** [F21a variable-seconds-within-interval is FIXED in /repo: serializeVariableRecords keeps the decoded second;
+    the former witness (1Min bucket, tick at 12:00:37.5) is part of the non-vacuity example below.] *)
 Definition w_a : ws :=
   mkws RT_VARIABLE (b "AAA/1Min/TICK") minute 2020 91441
        ([x01; x00; x00; x00] ++ le_bytes 4 (enc 1440 37500000000)) 8 sh_A.
 
-Theorem C25_refuted_seconds : ~ C25_full.
+(** [Finding decoded-second-rounded-up: C10's F1 seen through replication]  A tick written to a 1Sec bucket at
+    x.999999999 s: GetTimeFromTicks returns it one second late (seconds rounded up, nanoseconds kept).  The
+    master's query shows that late time; the replica re-encodes the late time, which lands in the NEXT
+    interval and decodes late once more: master and replica differ by a second.  The defect is in the tick
+    decoder (executor/rewritebuffer.go:79-86), not in the replication code. *)
+Definition w_r : ws :=
+  mkws RT_VARIABLE (b "RRR/1Sec/TICK") second 2020 5486438
+       ([x01; x00; x00; x00] ++ le_bytes 4 (enc 86400 999999999)) 8 sh_A.
+
+Theorem C25_refuted_rounding : ~ C25_full.
 Proof.
-  intros H. destruct (H [[w_a]] ltac:(vm_compute; reflexivity)) as (sr & Hr & Hc).
+  intros H. destruct (H [[w_r]] ltac:(vm_compute; reflexivity)) as (sr & Hr & Hc).
   vm_compute in Hr. injection Hr as <-. vm_compute in Hc. discriminate Hc.
 Qed.
-Print Assumptions C25_refuted_seconds.
+Print Assumptions C25_refuted_rounding.
 
 (** [F21b mixed-record-types-in-tg is FIXED in /repo: Replay uses each write set's own record type; the
     former witness, a FIXED set followed by a VARIABLE one, is part of the non-vacuity example below.] *)
@@ -99,11 +103,12 @@ Definition w_f  : ws := mkws RT_FIXED (b "FFF/1Min/OHLC") minute 2020 91442 [x02
 Definition w_v2 : ws := mkws RT_VARIABLE (b "VVV/1Sec/TICK") second 2020 5486439 ([x03; x00; x00; x00] ++ le_bytes 4 0) 8 sh_A.
 
 (** Non-vacuity: a history with a FIXED transaction group of two write sets, a VARIABLE 1Sec set, a MIXED
-    group (FIXED overwrite of a slot followed by a VARIABLE set: the former F21b witness) meets the guard
-    of C25_guarded with the concrete codec, and the replica converges on it. *)
+    group (FIXED overwrite of a slot followed by a VARIABLE set: the former F21b witness) and a 1Min tick with
+    37.5 s inside the interval (the former F21a witness) meets the guard of C25_guarded with the concrete
+    codec, and the replica converges on it. *)
 Definition w_f2 : ws := mkws RT_FIXED (b "FFF/1Min/OHLC") minute 2020 91443 [x05; x00; x00; x00] 0 sh_A.
 Definition w_f3 : ws := mkws RT_FIXED (b "FFF/1Min/OHLC") minute 2020 91442 [x07; x00; x00; x00] 0 sh_A.
-Definition ex_hist : list (list ws) := [[w_f; w_f2]; [w_v1]; [w_f3; w_v2]].
+Definition ex_hist : list (list ws) := [[w_f; w_f2]; [w_v1]; [w_f3; w_v2]; [w_a]].
 
 Example C25_nonvacuous :
   run_okb gt tft [] ex_hist = true /\
